@@ -288,6 +288,8 @@ def torsion_case(draw):
         # further requests for the same torsion afterwards (the debumper tries angle after angle)
         then=draw(st.lists(st.one_of(st.sampled_from([0.0, 0.0, 360.0, -360.0, 180.0, -180.0, 60.0, -60.0]), strat.fl(-180.0, 180.0)),
                            min_size=0, max_size=3)),
+        # ... or for ANOTHER listed torsion of the residue in between (offsets into its torsion list)
+        then_which=draw(st.lists(st.sampled_from([0, 0, 1, 2]), min_size=3, max_size=3)),
     )  # fmt: skip
 
 
@@ -375,7 +377,11 @@ def check_torsion(case):
             res.bad("C15:torsion:not-rigid", f"{base} {names[k]}: moved set deformed")
     # the same torsion is set again and again: every request counts, whatever the angle it starts from
     prev = after
+    k0 = k
     for step, tgt in enumerate(case.get("then", []), 2):
+        off = (case.get("then_which") or [0, 0, 0])[(step - 2) % 3]
+        k = heavy_idx[(heavy_idx.index(k0) + off) % len(heavy_idx)]
+        quad = names[k].split()
         deb.set_dihedral_angle(residue, k, tgt)
         cur = {a.name: np.array(a.coords) for a in residue.atoms}
         got = geom.dihedral(*(cur[x] for x in quad))
@@ -388,12 +394,13 @@ def check_torsion(case):
             break
         for n in cur:
             for ax in quad[1:3]:
-                d0 = np.linalg.norm(before[n] - before[ax])
+                d0 = np.linalg.norm(prev[n] - prev[ax])
                 d1 = np.linalg.norm(cur[n] - cur[ax])
                 if abs(d0 - d1) > 1e-8 * max(1.0, d0):
                     res.bad("C15:torsion:axis-distance", f"{base} {names[k]}: |{n}-{ax}| {d0:.6f} -> {d1:.6f} after request #{step}")
                     break
         prev = cur
+    k = k0
     res.nontrivial = geom.angdiff(old, case["target"]) > 1.0 and len(moved) >= 1
     res.label(f"res={base}", f"chi#{heavy_idx.index(k) + 1}", f"requests={1 + len(case.get('then', []))}",
               "terminal" if (residue.is_n_term or residue.is_c_term) else "internal")  # fmt: skip
